@@ -13,10 +13,39 @@ structure Case where
   instances : Term
   nvars : Nat          -- query variables are V0 .. V(nvars-1)
 
+mutual
+  /-- In the payloads of this stream four reserved functors tell the HARNESS which Go representation
+      to build for a list (`$l` slice-backed list, `$p` partial list, `$s` charList, `$c` codeList, see
+      harness/c11.go); for the model and the specification they are all the plain list term. -/
+  def norm : Term → Term
+    | .app f as =>
+      let as' := normArgs as
+      if f = "$l" then Term.list as'.toList
+      else if f = "$p" then
+        match as'.toList.reverse with
+        | tail :: revEs => Term.list revEs.reverse tail
+        | [] => .atom "[]"
+      else if f = "$s" then
+        match as' with
+        | .cons (.atom s) .nil => Term.list (s.toList.map fun c => .atom (String.singleton c))
+        | _ => .app f as'
+      else if f = "$c" then
+        match as' with
+        | .cons (.atom s) .nil => Term.list (s.toList.map fun c => .int c.toNat)
+        | _ => .app f as'
+      else .app f as'
+    | t => t
+  def normArgs : Args → Args
+    | .nil => .nil
+    | .cons t ts => .cons (norm t) (normArgs ts)
+end
+
+def ofWireN (s : String) : Option Term := (Term.ofWire s).map norm
+
 /-- the bindings executed before the call, as an environment -/
 def bindsEnv (ops : List String) : Option Env :=
   ops.mapM fun o =>
-    match Term.ofWire o with
+    match ofWireN o with
     | some (.app "=" (.cons (.var v) (.cons t .nil))) => some (v, t)
     | _ => none
 
@@ -30,9 +59,9 @@ def parseCase (payload : String) : Option Case :=
   match fields payload with
   | [kind, _clauses, binds, ts, gs, is] => do
     let e ← bindsEnv (splitOps binds)
-    let t ← Term.ofWire ts
-    let g ← Term.ofWire gs
-    let i ← Term.ofWire is
+    let t ← ofWireN ts
+    let g ← ofWireN gs
+    let i ← ofWireN is
     let t ← applyEnv e fuel [] t
     let g ← applyEnv e fuel [] g
     let i ← applyEnv e fuel [] i
@@ -115,7 +144,7 @@ open PrologVerif PrologVerif.Collect PrologVerif.Driver
 def variantHandlerBy (test : Term → Term → Bool) : Handler := fun payload impl =>
   match fields payload with
   | ["v", a, b] =>
-    match Term.ofWire a, Term.ofWire b with
+    match ofWireN a, ofWireN b with
     | some t1, some t2 =>
       let m := if test t1 t2 then "true" else "false"
       -- specification: variants iff the canonical forms (variables numbered by first occurrence) coincide
@@ -123,7 +152,7 @@ def variantHandlerBy (test : Term → Term → Bool) : Handler := fun payload im
       (m, if impl == want then "ok" else s!"FAIL variant: want {want} (canonical forms {if want == "true" then "coincide" else "differ"})")
     | _, _ => ("BAD-CASE", "-")
   | ["c", a] =>
-    match Term.ofWire a with
+    match ofWireN a with
     | some t =>
       let next := varBound t
       let c := (renamedCopy t [] next).1
